@@ -46,7 +46,7 @@ SPEC = {
     'C15': ('rv.meta', 'Integer patterns match exactly the canonical numerals in range',
             'ranges from all digit-length combinations 1..6 x boundary shapes x 5 sign variants; per range boundary/length-shifted/'
             'leading-zero candidates alone (text start and end) and embedded in 22 contexts; every digit run judged MUST / MUST-NOT / '
-            'unspecified by a numeric model; extensible forms behind 4 prefixes; distinct = distinct (variant, range) cases', 100),
+            'unspecified by a numeric model; extensible forms behind 5 prefixes; distinct = distinct (constructor, parameters) cases plus distinct judged questions (object, method, input text) per shard', 100),
     'C16': ('rv.meta', 'Decimal patterns constrain integer part and fraction length exactly',
             'ranges x fraction bounds x 5 variants; tokens sign+int+.+fraction with boundary/leading-zero/missing int parts and fraction '
             'lengths min-1..max+1, exact and embedded', 100),
